@@ -8,6 +8,7 @@ import (
 	"io"
 	"log"
 	"math/big"
+	"strings"
 	"testing"
 	"testing/cryptotest"
 
@@ -48,12 +49,12 @@ type presented struct {
 	msg, val  []byte
 }
 
-var sigMutKinds = []string{"flipsig", "flipsig", "append", "append", "trunc", "empty", "negr", "negs", "zeror", "zeros", "nonminr", "nonmins", "swaprs", "extra", "extra", "longlen", "compl", "compl", "addn", "dertweak", "dertweak", "stripr", "strips", "stripr", "strips"}
+var sigMutKinds = []string{"flipsig", "flipsig", "append", "append", "trunc", "empty", "negr", "negs", "zeror", "zeros", "nonminr", "nonmins", "swaprs", "extra", "extra", "longlen", "compl", "compl", "addn", "dertweak", "dertweak", "stripr", "strips", "stripr", "strips", "zeroprepend", "zerostrip"}
 
 func genSigMut(t *rapid.T, label string) Mut {
 	m := Mut{Kind: pickStr(t, label+".sk", sigMutKinds)}
 	switch m.Kind {
-	case "flipsig", "trunc", "dertweak":
+	case "flipsig", "trunc", "dertweak", "zeroprepend", "zerostrip":
 		m.A = pick(t, label+".a", 1<<14)
 	case "append":
 		m.Data = rapid.SliceOfN(rapid.Byte(), 1, 6).Draw(t, label+".d")
@@ -79,6 +80,10 @@ func genCode(t *rapid.T, label string, validMax int) int {
 
 // genMut draws a mutation of the blob-level tuple. cur is the kind of the signing key.
 func genMut(t *rapid.T, label string, signer *keys.Key) Mut {
+	if strings.HasPrefix(signer.Kind, "rsa") && pick(t, label+".rsazero", 5) == 0 {
+		// length-changing, value-preserving re-framings of an RSA signature (I2OSP is fixed-width)
+		return Mut{Kind: pickStr(t, label+".zk", []string{"zeroprepend", "zerostrip", "zerostrip"}), A: pick(t, label+".a", 1<<14)}
+	}
 	switch pick(t, label+".m", 16) {
 	case 0, 1:
 		return Mut{Kind: "flipmsg", A: pick(t, label+".a", 1<<12)}
@@ -179,6 +184,18 @@ func applyMut(p *presented, m Mut) string {
 		}
 	case "empty":
 		p.val = nil
+	case "zeroprepend", "zerostrip":
+		// the same integer in more or fewer octets: never the same signature value
+		if m.Kind == "zerostrip" && len(p.val) > 1 && p.val[0] == 0 {
+			out := p.val
+			for len(out) > 1 && out[0] == 0 {
+				out = out[1:]
+			}
+			p.val = append([]byte(nil), out...)
+			return "zerostrip"
+		}
+		p.val = append(make([]byte, 1+m.A%3), p.val...)
+		return "zeroprepend"
 	default:
 		r, s, rest, err := readRS(p.val)
 		if err != nil {
@@ -402,6 +419,17 @@ func checkBlob(t *testing.T, c BlobCase) (v harness.Verdict) {
 		p.val = ds.Signature
 	} else {
 		p.val = signStd(k, c.Hash, c.Msg)
+		if len(c.Muts) > 0 && c.Muts[0].Kind == "zerostrip" && p.sig == sigRSA && k.Kind != "rsa2048" && k.Kind != "rsa3072" {
+			// look (bounded) for a message whose signature starts with a zero octet: one in 256 for a
+			// byte-aligned modulus, far more often when the top octet of the modulus holds few bits
+			for i := 0; i < 64 && p.val[0] != 0; i++ {
+				p.msg = append(append([]byte(nil), c.Msg...), byte(i), 0x5a)
+				p.val = signStd(k, c.Hash, p.msg)
+			}
+			if p.val[0] == 0 {
+				v.Class("rsa-signature-with-leading-zero")
+			}
+		}
 		if p.sig != sigAnon {
 			if e := refVerify(k.Pub, p.hash, p.sig, p.msg, p.val); e != nil {
 				v.Failf("harness-selfcheck", "fresh stdlib signature fails the reference: %v", e)
